@@ -6,6 +6,7 @@ import (
 	"strings"
 	"time"
 
+	"github.com/shopspring/decimal"
 	"github.com/tyler-sommer/stick"
 
 	"verif/core"
@@ -22,6 +23,8 @@ type c06Val struct {
 
 var c06Vals = []c06Val{
 	{"t", true, true}, {"f", false, false}, {"z", 0, false}, {"o", 1, true}, {"e", "", false}, {"s", "a", true}, {"n", nil, false},
+	// numbers carried by decimal.Decimal (which also has a String method): zero and negative are false like any other number
+	{"dz", decimal.Zero, false}, {"dn", decimal.New(-15, -1), false}, {"dp", decimal.New(25, -1), true},
 }
 
 func c06Ctx() map[string]stick.Value {
@@ -256,6 +259,37 @@ func c06Carriers() []c06Carrier {
 			}
 			return "seq", nil, nil, nil, true
 		}},
+		// ranges that count down: n elements, also the two-element one (lo = hi - 1) and through variables
+		{"descending range", func(n int) (string, stick.Value, []string, []string, bool) {
+			if n == 0 {
+				return "", nil, nil, nil, false
+			}
+			var vals []string
+			for i := 0; i < n; i++ {
+				vals = append(vals, itoa(n-i))
+			}
+			return itoa(n) + "..1", nil, idx(n), vals, true
+		}},
+		{"descending range below zero", func(n int) (string, stick.Value, []string, []string, bool) {
+			if n == 0 {
+				return "", nil, nil, nil, false
+			}
+			var vals []string
+			for i := 0; i < n; i++ {
+				vals = append(vals, itoa(1-i))
+			}
+			return "1..(" + itoa(2-n) + ")", nil, idx(n), vals, true
+		}},
+		{"descending range with variable bounds", func(n int) (string, stick.Value, []string, []string, bool) {
+			if n == 0 {
+				return "", nil, nil, nil, false
+			}
+			var vals []string
+			for i := 0; i < n; i++ {
+				vals = append(vals, itoa(n-1-i))
+			}
+			return "seq..0", n - 1, idx(n), vals, true
+		}},
 	}
 }
 
@@ -265,7 +299,7 @@ func c06Levels(tier string) []core.Level {
 		maxNest, maxLen = 5, 16
 	}
 	lv := []core.Level{
-		{Name: "if / elseif / else chains with <= 3 conditions: every assignment of 7 values x presence of else", Gen: func(emit func(core.Case)) {
+		{Name: "if / elseif / else chains with <= 3 conditions: every assignment of 10 values (incl. decimal.Decimal zero, negative, positive) x presence of else", Gen: func(emit func(core.Case)) {
 			nv := len(c06Vals)
 			for n := 1; n <= 3; n++ {
 				idx := make([]int, n)
@@ -324,7 +358,7 @@ func c06Levels(tier string) []core.Level {
 				}
 			}
 		}},
-		{Name: "one loop printing key, value and all loop metadata: 13 carriers x lengths 0..8 x key variable x else", Gen: func(emit func(core.Case)) {
+		{Name: "one loop printing key, value and all loop metadata: 16 carriers (incl. ranges counting down) x lengths 0..8 x key variable x else", Gen: func(emit func(core.Case)) {
 			for ci, c := range c06Carriers() {
 				for n := 0; n <= maxLen; n++ {
 					if _, _, _, _, ok := c.mk(n); !ok {
